@@ -2,6 +2,7 @@ package main
 
 import (
 	"fmt"
+	"os"
 	"sort"
 	"strings"
 
@@ -10,6 +11,7 @@ import (
 	"github.com/bfenetworks/bfe/bfe_config/bfe_cluster_conf/gslb_conf"
 	"github.com/bfenetworks/bfe/bfe_route"
 
+	"verifharness/balhist"
 	"verifharness/vkit"
 )
 
@@ -430,5 +432,15 @@ func c14(r *vkit.Run) {
 	}
 	if r.Counter("hazard_none") == 0 {
 		r.Inconclusive("control group (no hazard) missing")
+	}
+	// reload-count independence of the gslb level: a table that reached a configuration through
+	// reloads (incl. added sub-clusters) must decide like a table initialised directly with it
+	scratch := os.Getenv("VERIF_SCRATCH")
+	if scratch == "" {
+		scratch = os.TempDir()
+	}
+	balhist.Run(r, r.N(1500, 30000), scratch)
+	if r.Counter("balhist_added_sorts_before_survivor") == 0 {
+		r.Inconclusive("reload-history monitor never added a sub-cluster sorting before a survivor")
 	}
 }
